@@ -117,6 +117,19 @@ CHECKS = {
             "FIFO order of equal-time SystemClock tasks for the canary. Lenient parses outside the "
             "strictly-malformed classes are counted, not judged.",
             "3/C18"),
+    'C20': ("differential monitor across worker processes (sha256 of as_bytes per program): "
+            "reference process vs random hash seed + reverse order, interleaved failing builds, "
+            "2-16 concurrently building threads under sys.monitoring yield injection (RT), heavy "
+            "prior use with GC disabled + immediate rebuild, single-program fresh processes; "
+            "residue predicates after every failing build",
+            "Runtime monitoring of seeded graph programs (C01/C02 generator) built under six "
+            "kinds of histories/configurations; bytes (or exception class) must be identical "
+            "everywhere; after failures the build context, the build lock and units created "
+            "outside a build are inspected.",
+            "Trusted: vf/gen_graph.py renders the same function from the same data in every "
+            "process; the PYTHONHASHSEED=0 sequential build is the reference (validated by "
+            "single-program fresh processes).",
+            "3/C20"),
 }
 
 NOT_YET = "check not built yet in this session (work in progress); runtime monitoring is applicable"
